@@ -121,7 +121,8 @@ def get_facts(repo="/repo", profile="dev", crate="neurons", quiet=False, slot=""
     f["_key"] = key
     f["_profile"] = profile
     if normalise:
-        from . import names
+        from . import names, inline
+        inline.inline_new_helpers(f)
         names.normalise(f)
     return f
 
